@@ -391,9 +391,10 @@ def known_class(ver, req_tokens, d):
     why = check_output(ver, req_tokens, d)
     if why is None:
         return None
-    if "item-name set" in why and ver != 1:
+    if ver != 1 and (why.startswith("re-parsed CIF is not equivalent") or why.startswith("re-parse reported error")):
         # write_uliteral(name, -1, …) counts code points and prints that many UNITS: a scalar data name holding a
-        # supplementary character loses its last unit(s)
+        # supplementary character loses its last unit(s) — the item comes back under another name (possibly one that
+        # collides with another item: CIF_DUP_ITEMNAME on re-parse)
         toks = req_tokens
         for i, t in enumerate(toks):
             if t.startswith("L:-:"):
